@@ -119,14 +119,22 @@ func c19Child(raw json.RawMessage) any {
 		hc.Start()
 	}
 	stop := func() {
+		// (latencies are reported net of the time this process was held up meanwhile: a frozen machine is not a slow Stop)
+		net := func(t0 time.Time) int64 {
+			d := time.Since(t0)
+			if d -= recentStall(d + 10*time.Millisecond); d < 0 {
+				d = 0
+			}
+			return d.Microseconds()
+		}
 		s0 := time.Now()
 		hc.Stop()
 		stopped.Store(true) // set after Stop() returned: a ping that sees it was issued after the return
-		fmt.Printf("STOP %d\n", time.Since(s0).Microseconds())
+		fmt.Printf("STOP %d\n", net(s0))
 		if sc.StopTwice {
 			s1 := time.Now()
 			hc.Stop()
-			fmt.Printf("STOP2 %d\n", time.Since(s1).Microseconds())
+			fmt.Printf("STOP2 %d\n", net(s1))
 		}
 	}
 	switch sc.Stop {
